@@ -110,8 +110,10 @@ class Spec:
 
     def timed_value(self, o, extra=0):
         d = o.dur_ns
-        if d is None or d == -float("inf"):
-            return None                   # NaN / minus infinity: no demand
+        if d is None:
+            return None                   # NaN: the property says nothing (the code counts it as 0)
+        if d == -float("inf"):
+            return True                   # already elapsed
         if d == float("inf"):
             return False                  # an infinite duration never elapses
         if self.fake:
@@ -928,7 +930,8 @@ HUGE = [float("inf"), 1.7976931348623157e308, 1e300, 1e19, 1e10, 9.3e9, 92233720
 def gen_timed_overflow(rng):
     """durations that do not fit the clock's 64-bit nanoseconds (292 years and more, +infinity, DBL_MAX,
     time::duration::max(): the "run for ever" idioms), through every timed factory; the property says such a
-    condition is false at every reachable time (finding F195: the code wraps around)"""
+    condition is false at every reachable time (F195, fixed in /repo f29ac4e4e: the old code wrapped around; a
+    tree that wraps again is a VIOLATION)"""
     g = G(rng)
     r = rng
     t0 = r.choice([0, 0, 777, 10 ** 12])
@@ -1224,13 +1227,28 @@ def canon(impl, model):
     return a, b
 
 
-# VERIF_C18_TIMED=sat makes the model follow the proposed repair of F195 (notes/C18-fix-F195.diff) instead of the
-# code as it is - used to validate the repair on a scratch worktree; the oracle is the same either way
-TIMED_MODE = os.environ.get("VERIF_C18_TIMED", "")
+def tree_saturates():
+    """which timed arithmetic does the tree under test have?  Since /repo f29ac4e4e (repair of F195)
+    PlannerTerminationCondition.cpp converts durations with `saturatedSeconds`; a tree without it has the old
+    wrapping arithmetic, and the model is told so (script header `sat=0`), so that it still follows the code
+    line by line.  The oracle does not depend on this: durations beyond the clock's range are judged
+    "false at every reachable time" either way, so the old code is a VIOLATION (the finding is `fixed`)."""
+    p = os.path.join(core.REPO, "src", "ompl", "base", "src", "PlannerTerminationCondition.cpp")
+    try:
+        return "saturatedSeconds" in open(p).read()
+    except OSError:
+        return True
+
+
+SAT = None
 
 
 def run_once(ck, hbin, script):
-    sent = [script[0] + (" timed=" + TIMED_MODE if TIMED_MODE in ("sat", "wrap") else "")] + list(script[1:])
+    global SAT
+    if SAT is None:
+        SAT = tree_saturates()
+    hdr = script[0].split()[:2]
+    sent = [" ".join(hdr + ["sat=%d" % (1 if SAT else 0)])] + list(script[1:])
     impl, rc, err, model = ck.run_pair(hbin, DRIVER, sent, timeout=120)
     impl = impl or []
     fail, spec = oracle(script, impl)
